@@ -896,7 +896,8 @@ func (in *Instance) Do(rq Req) (resp Resp) {
 	resp.Location = wire.Header.Get("Location")
 	if strings.HasPrefix(wire.Header.Get("Content-Type"), "application/json") {
 		var m map[string]interface{}
-		if json.Unmarshal(w.Body.Bytes(), &m) == nil {
+		// the first JSON document of the body (event handlers that both answer write two)
+		if json.NewDecoder(bytes.NewReader(w.Body.Bytes())).Decode(&m) == nil {
 			resp.JSON = m
 			if resp.Location == "" {
 				if l, ok := m["location"].(string); ok {
